@@ -46,6 +46,7 @@ class Engine:
         self.global_axioms = []  # formulas valid in every state
         self.modular_hook = None  # set by verify: apply contract at call
         self.ctor_hook = None
+        self.pure_exc = []
 
     # ----------------------------------------------------------------------------------
     # feasibility and branching
@@ -97,7 +98,7 @@ class Engine:
             vals = [(g, v) for g, v in live if not isinstance(v, Exc)]
             if len(vals) == 1:
                 for g, v in live:
-                    if isinstance(v, Exc):
+                    if isinstance(v, Exc) and self.feasible(state, g):
                         self.pure_exc.append((g, v))
                 yield vals[0][1], state
                 return
@@ -578,9 +579,21 @@ class Engine:
                         yield from go(i + 1, s1)
                     continue
                 if self.pure or isinstance(v, VBool):
-                    # merge lazily when the rest is pure and mergeable
+                    # merge lazily when the rest is pure and mergeable; the rest is only
+                    # evaluated when the first operand does not decide the result
                     try:
-                        rest = self.eval1(ast.BoolOp(op=node.op, values=node.values[i + 1:]) if i + 2 < len(node.values) else node.values[i + 1], s1)
+                        s_as = s1.fork()
+                        s_as.assume(simp(z3.Not(t)) if is_or else t)
+                        saved_exc, self.pure_exc = self.pure_exc, []
+                        try:
+                            rest = self.eval1(ast.BoolOp(op=node.op, values=node.values[i + 1:]) if i + 2 < len(node.values) else node.values[i + 1], s_as)
+                            if self.pure_exc and not self.pure:
+                                raise Unsupported("exception inside a merged boolean operand")
+                        finally:
+                            if self.pure:
+                                self.pure_exc = saved_exc + self.pure_exc
+                            else:
+                                self.pure_exc = saved_exc
                         if mergeable(v, rest):
                             yield (merge(t, v, rest) if is_or else merge(t, rest, v)), s1
                             continue
